@@ -363,3 +363,5 @@ META = {
     'not_decided': 'the guesser side of "same level" (exactness of the enumeration, C10)',
     'technique': 'sibling-implementation cross-check on normalised skeletons + index-domain offsets',
 }
+
+META['explanation'] += ' ' + "Further: min_length resolves to max(min_length, ngram) in every ordering (abstractly interpreted); the third pass reads what the first pass read; the scorer's and guesser's OMEN loaders keep every record."
